@@ -29,8 +29,9 @@ def run(ctx, crate):
     rule_getters(ctx, crate)
     rule_pos_writers(ctx, crate)
     # "position() equals the value defined by the history of ... finish calls": per-variant effect of finishing on the position
-    from .c04 import rule_finish_arms, rule_on_finish_writers
+    from .c04 import rule_finish_arms, rule_on_finish_writers, rule_finish_api_map
     rule_finish_arms(ctx, crate)
+    rule_finish_api_map(ctx, crate)         # ... and every public finish call reaches that effect on every path
     rule_on_finish_writers(ctx, crate)      # ... every time a bar is finished, also after a reset
     Lg.run_ledger(ctx, crate, "C07", "R-POS-LEDGER", ENTRIES, STOP, floor_edges=6)
 
